@@ -57,6 +57,7 @@ func bail(format string, a ...interface{}) {
 
 // State is the symbolic state along one path.
 type State struct {
+	callVals map[string]Val // callret: results of the latest direct call per callee
 	decls   []string
 	declSet map[string]bool
 	facts   []string
@@ -106,6 +107,12 @@ func (st *State) fork() *State {
 	}
 	for k, v := range st.ghost {
 		n.ghost[k] = v
+	}
+	if st.callVals != nil {
+		n.callVals = map[string]Val{}
+		for k, v := range st.callVals {
+			n.callVals[k] = v
+		}
 	}
 	return n
 }
